@@ -387,6 +387,11 @@ impl DnsCache {
     pub(crate) fn evict_expired_services(&mut self, now: u64) -> HashMap<String, HashSet<String>> {
         let mut expired_instances = HashMap::new();
 
+        // Instances whose last SRV record expired in this call. An instance can be
+        // reached from several ty_domains (a type and its subtypes): all of them
+        // have to report it, not only the first one visited.
+        let mut srv_gone: HashSet<String> = HashSet::new();
+
         // Check all ty_domain in the cache by following all PTR records, regardless
         // if the ty_domain is actively queried or not.
         for (ty_domain, ptr_records) in self.ptr.iter_mut() {
@@ -403,14 +408,18 @@ impl DnsCache {
 
                         if srv_records.is_empty() {
                             debug!("expired SRV for {}: {:?}", ty_domain, instance_name);
-                            expired_instances
-                                .entry(ty_domain.to_string())
-                                .or_insert_with(HashSet::new)
-                                .insert(instance_name.to_string());
+                            srv_gone.insert(instance_name.to_string());
 
                             // don't keep empty value for this key.
                             self.srv.remove(instance_name);
                         }
+                    }
+
+                    if srv_gone.contains(instance_name) {
+                        expired_instances
+                            .entry(ty_domain.to_string())
+                            .or_insert_with(HashSet::new)
+                            .insert(instance_name.to_string());
                     }
 
                     // evict expired TXT records of this instance
